@@ -42,4 +42,7 @@ def prep(mod):
         img, rel = ilparse.data_image(d)
         data.append({"name": d["name"], "size": len(img), "align": d["align"] or 1, "bytes": img,
                      "relocs": [{"off": o, "sym": s, "add": w8(a)} for (o, sz, s, a) in rel]})
-    return {"funcs": funcs, "data": data}
+    import il2c
+    tt = il2c.TypeTable(mod["types"])
+    types = [{"name": t["name"], "size": tt.size(t["name"]), "align": tt.align(t["name"])} for t in mod["types"]]
+    return {"funcs": funcs, "data": data, "types": types}
